@@ -27,7 +27,7 @@ CLAIMED.update({
  "C15": ("Bounded symbolic model checking of the real kfmt.fmtInt / Fprintf: every value of all eleven built-in integer types in base 8/10/16 (digits checked by Horner reconstruction; decimal decided through cvc5's integer encoding), padding for every int padLen, %s/%t/wrong-type markers, the whole format scanner over every format string of L bytes and over the 5-byte shape %<digit><verb>%<verb> against a reference formatter (inside the documented language exact equality, for every string no panic).",
          "Not decided: 'performs no heap allocation' (a property of the compiler's escape analysis, not of input/output behaviour). Bounds: pad harness values <= 8 bits, strings <= 3 bytes, widths in formats <= 2 digits, format length 3 (quick) / 4 (thorough), fixed argument lists.", "7 C15"),
  "C19": ("Bounded symbolic model checking of the real console drivers: VgaTextConsole Write/Fill/Scroll on grids up to 3x3 (4x3 thorough) with every cell and every 32-bit/8-bit argument symbolic, and VesaFbConsole Write/Fill/Scroll on a 2x2-cell grid with remainder row/column, pitch padding, logo offset, 8x2 and 9x2 synthetic fonts with symbolic glyph data, depth 8/16 (quick; Fill also 24) or 8/15/16/24/32 with symbolic colour masks (thorough); SetPaletteColor on a concrete checkerboard picture with a symbolic new colour; every framebuffer byte is compared with an independent pixel-level oracle; any access outside the buffer is a violation.",
-         "Framebuffer = Go slice of exactly height*pitch bytes; in-grid coordinates are case-split (enumerated) and out-of-grid ones symbolic; characters < 4 with the synthetic 4-glyph fonts; one open known finding (KF-C19-5: on 32 bpp a colour channel in the fourth byte is never written).", "7 C19"),
+         "Framebuffer = Go slice of exactly height*pitch bytes; in-grid coordinates are case-split (enumerated) and out-of-grid ones symbolic; characters < 4 with the synthetic 4-glyph fonts; a 32 bpp pixel counts as four bytes (RGBX layout checked by fb_pack32).", "7 C19"),
 })
 
 CLAIMED.update({
